@@ -51,6 +51,9 @@ NodeClauses(c, j) ==
                  /\ (c.start.natives = <<>> \/ {"prepare_all", "measure_all"} \subseteq NativeNames(c.start))
       legal == IF ok /\ legalIn
                THEN F("legal_nesting", ~LegalNesting(nd.out.prog))
+                    \* Meaning is computed from declarations: the in-memory circuit means the same only if every qubit
+                    \* object still resolves the way the circuit's own declarations say
+                    \cup F("legal_refs", ~ObjRefsFollowDecls(nd.out.prog))
                     \cup F("legal_reparse", LegalNesting(nd.out.prog) /\
                             (nd.reparse.cls # "ok" \/ Meaning(nd.reparse.prog, <<>>) # Meaning(nd.out.prog, <<>>)))
                ELSE {}
